@@ -169,6 +169,7 @@ fn cancel_label(call: &'static str) -> &'static str {
         "rollback" => "cancel@rollback",
         "take_next_ready" => "cancel@take_next_ready",
         "get_operation" => "cancel@get_operation",
+        "get_operation_tx" => "cancel@get_operation_tx",
         _ => "cancel@other",
     }
 }
